@@ -363,10 +363,21 @@ def _canonicalise_types(raw, unit):
         t = re.sub(r"\*\s*const$", "*", t)
         return t
 
+    ral = {k[1]: v for k, v in _REC_ALIAS.items() if k[0] == unit}
+
+    def fix(t, _fix=fix):
+        t = _fix(t)
+        if isinstance(t, str) and ral and "struct " in t:
+            for tag, canon in ral.items():
+                t = re.sub(r"\bstruct %s\b" % re.escape(tag), canon, t)
+        return t
+
     def visit(n):
         if isinstance(n, dict):
             if "t" in n:
                 n["t"] = fix(n["t"])
+            if ral and n.get("rec") in ral:
+                n["rec"] = ral[n["rec"]]
             for v in n.values():
                 visit(v)
         elif isinstance(n, list):
@@ -823,6 +834,9 @@ def _mentions(atom, lv):
     return False
 
 
+_REC_ALIAS = {}      # (unit, record name in this tree) -> record name in the frozen reference
+
+
 # static helpers with exactly one caller in the reference tree: helper -> caller (used only when the helper no longer exists)
 FOLDED_INTO = {"tell_subscribers": "tell_pubsub_msg", "alloc_ps_msg": "tell_if", "_pipe": "init_pubsub_fd", "loop_quit": None,
                "insert_node": "m_bst_insert"}
@@ -849,6 +863,15 @@ class Program:
                 if done:
                     self.inlined[u] = done
         self.folded = {}
+        refrecs = set(_namemap().get("__records__", []))
+        _REC_ALIAS.clear()
+        # records first: their canonical names are needed while the functions are canonicalised
+        for u in self.units:
+            for r in facts[u]["records"]:
+                names = [r["name"]] + ([r["tag"]] if r.get("tag") else []) + list(r.get("typedefs", []))
+                canon = next((n_ for n_ in names if n_ in refrecs), r["name"])
+                if canon != r["name"]:
+                    _REC_ALIAS[(u, r["name"])] = canon
         self.funcs = []              # all Func
         self.by_name = defaultdict(list)
         self.records = {}            # name -> record (first definition wins; identical across units)
@@ -863,10 +886,17 @@ class Program:
                 self.funcs.append(f)
                 self.by_name[f.name].append(f)
             for r in d["records"]:
+                # canonical record name: the one the frozen reference uses, among the tag and the typedef names of this tree
+                names = [r["name"]] + ([r["tag"]] if r.get("tag") else []) + list(r.get("typedefs", []))
+                canon = next((n_ for n_ in names if n_ in refrecs), r["name"])
+                if canon != r["name"]:
+                    _REC_ALIAS[(u, r["name"])] = canon
+                    r = dict(r)
+                    r["name"] = canon
                 self.records_by_unit[(u, r["name"])] = r
                 self.records.setdefault(r["name"], r)
-                if r.get("tag"):
-                    self.records.setdefault(r["tag"], r)
+                for n_ in names:
+                    self.records.setdefault(n_, r)
             self.enums.update(d["enums"])
             for g_, names_ in d.get("enum_groups", {}).items():
                 cur_ = self.enum_groups.setdefault(g_, [])
